@@ -40,6 +40,20 @@ func addOrderJobs(c *Check, prop string, covers map[int][]string) {
 		c.Add(&Job{Label: fmt.Sprintf("FrameworkOrder/%s", kindNames[kind]), Pkg: rootPkg, Func: "VerifFrameworkOrder", MustCover: covers[kind], PanicsAreFindings: true,
 			Tune: func(cf *Config) { cf.Bounds["param:fw.kind"] = kind; cf.StrParams["fw.prop"] = prop; scopeStubs(cf) }})
 	}
+	if prop == "C04" {
+		for kind := 0; kind < 3; kind++ {
+			kind := kind
+			c.Add(&Job{Label: "FreshInstance/" + kindNames[kind], Pkg: rootPkg, Func: "VerifC04FreshInstance", MustCover: []string{"three executions"}, PanicsAreFindings: true,
+				Tune: func(cf *Config) { cf.Bounds["param:fw.kind"] = kind; scopeStubs(cf) }})
+		}
+		// the scope gate against the real predicates on certificates from a pool (replayable)
+		c.Add(&Job{Label: "FrameworkOrder/certificate, scope pool, real predicates", Pkg: rootPkg, Func: "VerifFrameworkOrder", MustCover: []string{"out of scope", "body verdict"}, PanicsAreFindings: true,
+			Tune: func(cf *Config) {
+				cf.Bounds["param:fw.kind"] = 0
+				cf.StrParams["fw.prop"] = prop
+				cf.Bounds["param:fw.scopepool"] = 1
+			}})
+	}
 }
 
 func init() {
